@@ -15,46 +15,48 @@ From ChitchatModel Require Import Base SMap Ids Bytes Params NodeState Stream De
 Section C03.
   Variable zc : bytes -> option bytes.
   Hypothesis zc_len : forall b c, zc b = Some c -> len c <= len b.
+  (* for both step relations: with (strict = true) or without (false) the exclusion of KF-1 deliveries *)
+  Variable strict : bool.
 
   (* In every reachable global state, for every node, member X and copy of X: every key, value,
      version and deletion status it holds is a write of X's owner with exactly that version; the
      copy's max version, GC watermark and recorded heartbeat never exceed the owner's. *)
-  Theorem C03_integrity : forall g, reachable zc g ->
+  Theorem C03_integrity : forall g, reachable zc strict g ->
     forall a n X c, node_at g a = Some n -> nm_get X (cs_nodes (nd_cs n)) = Some c ->
       (forall k v, In (k, v) (c_kvs c) -> t_wrote (g_T g) X (entry_of k v)) /\
       c_max c <= t_max (g_T g) X /\ c_gc c <= t_max (g_T g) X /\ c_hb c <= t_hb (g_T g) X.
   Proof.
     intros g Hr a n X c Hn Hc.
-    destruct (reachable_inv zc zc_len g Hr) as [Hg _].
+    destruct (reachable_inv zc zc_len strict g Hr) as [Hg _].
     destruct (gi_nodes g Hg a n Hn) as [_ Hint _]. destruct (Hint X c Hc) as [A B C D]. auto.
   Qed.
 
   (* ... where the truth about X IS X's own current state: max version and heartbeat of the copy
      the owner holds of itself *)
-  Theorem C03_truth_is_the_owners_state : forall g, reachable zc g ->
+  Theorem C03_truth_is_the_owners_state : forall g, reachable zc strict g ->
     forall a n, node_at g a = Some n ->
       exists c, nm_get (self_id n) (cs_nodes (nd_cs n)) = Some c /\
                 c_max c = t_max (g_T g) (self_id n) /\ c_hb c = t_hb (g_T g) (self_id n).
   Proof.
-    intros g Hr a n Hn. destruct (reachable_inv zc zc_len g Hr) as [Hg _].
+    intros g Hr a n Hn. destruct (reachable_inv zc zc_len strict g Hr) as [Hg _].
     destruct (gi_nodes g Hg a n Hn) as [_ _ Hown]. exact Hown.
   Qed.
 
   (* ... writes carry distinct versions in 1..max: an entry's version identifies the write *)
-  Theorem C03_versions_identify_writes : forall g, reachable zc g ->
+  Theorem C03_versions_identify_writes : forall g, reachable zc strict g ->
     (forall X w, t_wrote (g_T g) X w -> 0 < lw_ver w /\ lw_ver w <= t_max (g_T g) X) /\
     (forall X w w', t_wrote (g_T g) X w -> t_wrote (g_T g) X w' -> lw_ver w = lw_ver w' -> w = w').
   Proof.
-    intros g Hr. destruct (reachable_inv zc zc_len g Hr) as [Hg _]. destruct (gi_wf g Hg) as [A B]. auto.
+    intros g Hr. destruct (reachable_inv zc zc_len strict g Hr) as [Hg _]. destruct (gi_wf g Hg) as [A B]. auto.
   Qed.
 
   (* ... and nothing at all is known about an id that no node carries *)
-  Theorem C03_no_invented_members : forall g, reachable zc g ->
+  Theorem C03_no_invented_members : forall g, reachable zc strict g ->
     forall X, (forall a n, node_at g a = Some n -> self_id n <> X) ->
     forall a n c, node_at g a = Some n -> nm_get X (cs_nodes (nd_cs n)) = Some c ->
       c_kvs c = [] /\ c_max c = 0 /\ c_gc c = 0 /\ c_hb c = 0.
   Proof.
-    intros g Hr X HX a n c Hn Hc. destruct (reachable_inv zc zc_len g Hr) as [Hg _].
+    intros g Hr X HX a n c Hn Hc. destruct (reachable_inv zc zc_len strict g Hr) as [Hg _].
     destruct (gi_support g Hg X HX) as (Hm & Hh & Hw).
     destruct (gi_nodes g Hg a n Hn) as [_ Hint _]. destruct (Hint X c Hc) as [A B C D].
     rewrite Hm in B, C. rewrite Hh in D. repeat split; try lia.
@@ -62,9 +64,9 @@ Section C03.
   Qed.
 
   (* every message in flight has the same integrity (no cross-wiring between members or keys) *)
-  Theorem C03_messages_carry_only_owner_writes : forall g, reachable zc g ->
+  Theorem C03_messages_carry_only_owner_writes : forall g, reachable zc strict g ->
     forall m, In m (g_sent g) -> msg_int (g_T g) m /\ msg_wf m.
-  Proof. intros g Hr. destruct (reachable_inv zc zc_len g Hr) as [Hg _]. apply (gi_sent g Hg). Qed.
+  Proof. intros g Hr. destruct (reachable_inv zc zc_len strict g Hr) as [Hg _]. apply (gi_sent g Hg). Qed.
 End C03.
 Print Assumptions C03_integrity.
 Print Assumptions C03_truth_is_the_owners_state.
